@@ -335,6 +335,9 @@ func (ci *crdIpam) Shutdown() {
 // #lizard forgives
 func (ci *crdIpam) ConfigurePool(floatIPs []*FloatingIPPool) error {
 	defer func() {
+		// runs after the deferred Unlock below, the tables must not be read without the lock
+		ci.cacheLock.RLock()
+		defer ci.cacheLock.RUnlock()
 		glog.Infof("Configure pool done, %d fip pool, %d unallocated, %d allocated", len(ci.FloatingIPs),
 			len(ci.unallocatedFIPs), len(ci.allocatedFIPs))
 	}()
